@@ -969,6 +969,118 @@ def add_prefix_readers(pack):
     c.replay_without_model = True
 
 
+    # ---- _postwalk's rebuilders (#(...) bodies and the selected branch of #?(...) are rebuilt form by form): the copy
+    # of a collection carries the original's metadata - reader locations included - whatever the collection type
+    from basilisp.lang import list as llist_, map as lmap_, set as lset_, vector as vec_
+    import itertools as _it
+
+    class WalkFn:
+        """stand-in for the functions handed to _walk (inner_f, outer_f): opaque callables"""
+
+    def walk_setup(eng, st):
+        psetup(eng, st)
+        eng.class_id(WalkFn)
+        eng.opaque_havoc = "none"
+        classes = (llist_.PersistentList, vec_.PersistentVector, lmap_.PersistentMap, lset_.PersistentSet)
+        for cls in classes:
+            eng.class_id(cls)
+
+            def with_meta(e, s, a, k, cls=cls):
+                r = e.alloc(s, cls)
+                e.store_field(s, r.t, "_meta", e.lift(a[1], s), None)
+                yield s, r
+
+            eng.method_models[(cls, "with_meta")] = Model(f"{cls.__name__}.with_meta (a copy carrying exactly the given metadata; C04)", with_meta)
+
+        def fresh(cls):
+            def model(e, s, a, k):
+                r = e.alloc(s, cls)
+                e.store_field(s, r.t, "_meta", V.VNone, None)
+                yield s, r
+
+            return Model(f"a new {cls.__name__} of the mapped elements (no metadata)", model)
+
+        eng.models[id(llist_.list)] = fresh(llist_.PersistentList)
+        eng.models[id(vec_.vector)] = fresh(vec_.PersistentVector)
+        eng.models[id(lmap_.hash_map)] = fresh(lmap_.PersistentMap)
+        eng.models[id(lset_.set)] = fresh(lset_.PersistentSet)
+        import builtins as _b
+
+        eng.models[id(_b.map)] = Model("map(inner_f, form) (the walked elements; opaque)", lambda e, s, a, k: iter([(s, SV(V.fresh_val("walked_elements")))]))
+        eng.method_models[(_it.chain, "from_iterable")] = Model("chain.from_iterable (opaque)", lambda e, s, a, k: iter([(s, (SV(V.fresh_val("flattened_entries")),))]))
+        eng.method_models[(lmap_.PersistentMap, "seq")] = Model("PersistentMap.seq (opaque)", lambda e, s, a, k: iter([(s, SV(V.fresh_val("entries")))]))
+
+        def f_hook(e, s, f, args, kwargs, line):
+            if not (isinstance(f, SV) and f.hint is WalkFn):
+                return None
+
+            def gen():
+                res = V.fresh_val("outer_result")
+                s.assume(e.external_ref_fact(s, res))
+                s.ghost["outer_calls"] = list(s.ghost.get("outer_calls", [])) + [([e.lift(x, s) for x in args], res)]
+                yield s, SV(res)
+
+            return gen()
+
+        eng.opaque_hook = f_hook
+
+    for fname, cls in (("_walk_ipersistentlist", llist_.PersistentList), ("_walk_ipersistentvector", vec_.PersistentVector),
+                       ("_walk_ipersistentmap", lmap_.PersistentMap), ("_walk_ipersistentset", lset_.PersistentSet)):
+        c = pack.contract("basilisp.lang.reader:" + fname)
+        c.param("form", OBJ(cls)).param("inner_f", OBJ(WalkFn)).param("outer_f", OBJ(WalkFn))
+        c.setup(walk_setup)
+        c.raises()
+
+        def walk_post(a, cls=cls):
+            calls = a.post.st.ghost.get("outer_calls", [])
+            if len(calls) != 1 or len(calls[0][0]) != 1:
+                return z3.BoolVal(False)
+            arg, res = calls[0][0][0], calls[0][1]
+            return z3.And(V.is_ref(arg), V.cls_of(V.Val.a(arg)) == a.eng.class_id(cls), fld(a.post.st, arg, "_meta") == fld(a.pre.st, a.form, "_meta"), a.result == res)
+
+        c.ensures("the rebuilt collection is of the same type and carries exactly the original's metadata (reader location included; none when the original has none), "
+                  "and what the outer function makes of it is returned", walk_post)
+        c.replay(lambda m, ctx, ob: WALK_REPLAY)
+        c.replay_without_model = True
+
+
+WALK_REPLAY = r'''
+from basilisp.lang import reader, keyword as kw, runtime as rt, symbol as sym
+rt.Var.intern(rt.Namespace.get_or_create(sym.symbol(rt.CORE_NS)), sym.symbol(rt.NS_VAR_NAME), rt.Namespace.get_or_create(sym.symbol("c16-walk-replay")), dynamic=True)
+K = (reader.READER_LINE_KW, reader.READER_COL_KW, reader.READER_END_LINE_KW, reader.READER_END_COL_KW)
+bad = []
+def colls(form, out):
+    if hasattr(form, "meta") and hasattr(form, "__iter__") and not isinstance(form, (str, bytes)) and type(form).__name__.startswith("Persistent"):
+        out.append(form)
+    if type(form).__name__ == "PersistentMap":
+        for k_, v_ in form.items():
+            colls(k_, out); colls(v_, out)
+    elif hasattr(form, "__iter__") and not isinstance(form, (str, bytes)):
+        for x in form:
+            colls(x, out)
+    return out
+for text in ("#(assoc {:a 1} :b %)", "#(conj [1 {:k #{2}}] '(3) %)", "(defn f [x] #?(:lpy (assoc {:n 1 :v [x]} :k #{x})))", "[1 #?@(:lpy [{:a (2)} [3]])]"):
+    for c in colls(list(reader.read_str(text))[0], []):
+        if type(c).__name__ == "PersistentList" and len(list(c)) and str(list(c)[0]) in ("fn*", "quote"):
+            continue  # forms the reader synthesises
+        if type(c).__name__ == "PersistentVector" and all(str(x).startswith("arg-") or str(x) == "&" for x in c):
+            continue  # the synthesised parameter vector of #(...)
+        m = c.meta
+        if m is None or any(m.val_at(k_) is None for k_ in K):
+            bad.append("%s: the %s %s carries no reader location" % (text, type(c).__name__, c))
+tagged = list(reader.read_str("#(identity ^:mark {:a 1} ^:mark [1] ^:mark #{1} ^:mark (f))"))[0]
+for c in colls(tagged, []):
+    if type(c).__name__ != "PersistentList" or str(list(c)[0]) == "f":
+        if c.meta is None or c.meta.val_at(kw.keyword("mark")) is not True:
+            if not (type(c).__name__ == "PersistentVector" and len(list(c)) == 0):
+                if str(c) not in ("[]",) and not str(c).startswith("[arg"):
+                    bad.append("user metadata lost on %s %s inside #(...)" % (type(c).__name__, c))
+for line in bad[:10]:
+    print(line)
+print("REPRODUCED" if bad else "not reproduced")
+'''
+
+
 COLL_REPLAY = r'''
 from basilisp.lang import reader
 bad = []
